@@ -59,16 +59,25 @@ Definition rd := (Z * Z * Z)%type.
 
 Inductive usrc := SrcAt (off : Z) | SrcZero | SrcBad.
 
-(* source of buffer bytes [lo,hi): scan the reads latest-first (later slice assignments overwrite earlier ones) *)
-Fixpoint unit_src_rev (rs_rev : list rd) (lo hi : Z) : usrc :=
-  match rs_rev with
+(* source of buffer bytes [lo,hi) after the slice assignments `reads` (in program order): a later assignment
+   overwrites an earlier one, so the LAST read that touches the range decides; if it does not cover the whole
+   range the bytes are a mixture (SrcBad). *)
+Definition rd_disjoint (r : rd) (lo hi : Z) : bool :=
+  match r with (_, len, pos) => (hi <=? pos) || (pos + len <=? lo) end.
+Definition rd_covers (r : rd) (lo hi : Z) : bool :=
+  match r with (_, len, pos) => (pos <=? lo) && (hi <=? pos + len) end.
+Definition rd_src (r : rd) (lo : Z) : Z := match r with (off, _, pos) => off + (lo - pos) end.
+
+Fixpoint unit_src (reads : list rd) (lo hi : Z) : usrc :=
+  match reads with
   | [] => SrcZero
-  | (off, len, pos) :: rest =>
-      if (hi <=? pos) || (pos + len <=? lo) then unit_src_rev rest lo hi
-      else if (pos <=? lo) && (hi <=? pos + len) then SrcAt (off + (lo - pos))
-      else SrcBad
+  | r :: rest =>
+      match unit_src rest lo hi with
+      | SrcZero => if rd_disjoint r lo hi then SrcZero
+                   else if rd_covers r lo hi then SrcAt (rd_src r lo) else SrcBad
+      | s => s
+      end
   end.
-Definition unit_src (reads : list rd) (lo hi : Z) : usrc := unit_src_rev (rev reads) lo hi.
 
 (* ---------- arrays ---------- *)
 (* An array value: its shape, the provenance of each cell (by index list), and the range reads (offset, length),
@@ -204,20 +213,27 @@ Definition fill_ok (shape : list Z) (f : list sub * arrv) : bool :=
   subs_ok shape (fst f) &&
   (list_eqb (slice_shape shape (fst f)) (av_shape (snd f)) || Nat.eqb (length (av_shape (snd f))) 0).
 
-Fixpoint fill_cell (shape : list Z) (fills_rev : list (list sub * arrv)) (idx : list Z) : prov :=
-  match fills_rev with
-  | [] => PZero
+(* later assignments overwrite earlier ones: the LAST fill that contains idx decides *)
+Fixpoint fill_lookup (shape : list Z) (fills : list (list sub * arrv)) (idx : list Z) : option prov :=
+  match fills with
+  | [] => None
   | (subs, v) :: rest =>
-      match fill_hit shape subs idx with
-      | Some j => av_cell v (if Nat.eqb (length (av_shape v)) 0 then [] else j)
-      | None => fill_cell shape rest idx
+      match fill_lookup shape rest idx with
+      | Some p => Some p
+      | None =>
+          match fill_hit shape subs idx with
+          | Some j => Some (av_cell v (if Nat.eqb (length (av_shape v)) 0 then [] else j))
+          | None => None
+          end
       end
   end.
+Definition fill_cell (shape : list Z) (fills : list (list sub * arrv)) (idx : list Z) : prov :=
+  match fill_lookup shape fills idx with Some p => p | None => PZero end.
 
 Definition a_zeros_fill (shape : list Z) (fills : list (list sub * arrv)) : outcome arrv :=
   if negb (forallb (fill_ok shape) fills) then Raise ValueErr else
   Return {| av_shape := shape;
-            av_cell := fun idx => if in_shape shape idx then fill_cell shape (rev fills) idx else PBad;
+            av_cell := fun idx => if in_shape shape idx then fill_cell shape fills idx else PBad;
             av_reads := flat_map (fun f => av_reads (snd f)) fills |}.
 
 (* an array whose reads are replaced (used when a buffer's reads are accounted to the caller) *)
